@@ -34,6 +34,26 @@ def _c(pid, engine, technique, level_text, level_note, design_ref):
 
 
 CHECKS = [
+    _c("C10", E1,
+       "symbolic execution (CrossHair+z3) of pytd.mro and Class.compute_mro over all bounded class hierarchies, differential against CPython's type()",
+       "Bounded solver-certified exhaustive check: every hierarchy of N classes with up to MAXB bases each is linearised by the stub path (GetBasesInMRO) and the interpreter path (compute_mro) and compared with CPython: TypeError <=> MROError, else identical order.",
+       "Trusted: CPython's C3 (oracle), CrossHair, z3. Stand-in class objects for interpreter classes (expose bases()/mro/full_name). Outside: attribute lookup, the error line, generics, metaclasses.",
+       "DESIGN.md 4 C10"),
+    _c("C12", E1,
+       "symbolic execution (CrossHair+z3) of pytd node __eq__/__hash__ over pairs and union permutations; per-path concrete serialise/decode round trip",
+       "Bounded solver-certified exhaustive check of the eq/hash law over pairs of bounded type trees and over permutations/duplications of union members, plus encode/decode/re-encode of generated stubs (byte stability, canonical order, dependency lists).",
+       "Trusted: msgspec C encoder/decoder, CrossHair, z3. Outside: ASTs of analysed programs, bundled stubs, `!=`.",
+       "DESIGN.md 4 C12"),
+    _c("C13", E1,
+       "symbolic execution (CrossHair+z3) of SignedFunction._map_args and PyTDSignature._map_args over all bounded (signature, call) shapes, differential against real CPython calls",
+       "Bounded solver-certified exhaustive check: for every signature with up to MAXP parameters of each kind and every call shape within the bounds, pytype fails the call iff CPython raises TypeError when a real function with that signature is called, and on success every parameter holds the argument CPython binds.",
+       "Trusted: CPython call binding (oracle), CrossHair, z3. Real Context created once per worker; conversion/formatting helpers run untraced. Outside: */** at the call site, bound methods, overloads.",
+       "DESIGN.md 4 C13"),
+    _c("C19", E1,
+       "symbolic execution (CrossHair+z3) of the build planner over symbolic import graphs with a transitive-closure oracle for all schedules; z3 string reasoning for ninja escaping",
+       "Bounded solver-based check: for every import graph of N modules (any cycles, five module kinds) the emitted plan checks each requested file once, declares only produced dependencies, is acyclic, and every imports-map entry is default.pyi or an output in the transitive closure of declared deps (so no ninja schedule reads a stub before it is written); escaping of a symbolic path string round-trips through a model of ninja's lexer.",
+       "Trusted: importlab/networkx SCC collapse (untraced), ninja lexer model, CrossHair's regex model for the escape job (cross-validated against CPython re), z3. Outside: running ninja, newline/CR/'|' in paths.",
+       "DESIGN.md 4 C19"),
     _c("C17", E1,
        "symbolic execution (CrossHair+z3) of booleq constructors/simplify vs truth-table oracle, one solver query per term shape over all assignments",
        "Bounded solver-based check: for every term tree within the stated depth/arity/variable bounds, z3 shows the real term and the plain-connective oracle agree under every assignment (and every table admitting it). Exhaustive over shapes inside the bound, symbolic over assignments and tables.",
@@ -60,10 +80,6 @@ NOT_APPLICABLE = {
     "C04": "check under construction (DESIGN.md 4 C04); not claimed until committed",
     "C05": "check under construction (DESIGN.md 4 C05); not claimed until committed",
     "C09": "check under construction (DESIGN.md 4 C09); not claimed until committed",
-    "C10": "check under construction (DESIGN.md 4 C10); not claimed until committed",
     "C11": "check under construction (DESIGN.md 4 C11); not claimed until committed",
-    "C12": "check under construction (DESIGN.md 4 C12); not claimed until committed",
-    "C13": "check under construction (DESIGN.md 4 C13); not claimed until committed",
     "C16": "check under construction (DESIGN.md 4 C16); not claimed until committed",
-    "C19": "check under construction (DESIGN.md 4 C19); not claimed until committed",
 }
